@@ -66,6 +66,16 @@ Check (C01_transcript_binding_partial : forall a b fra frb fab peer m1 m1' m2' m
     s_fab sa = fab /\ s_peer sa = peer /\ get_node_id (f_noc fb) = Some peer /\ cats_of (f_noc fb) = Ok (s_cats sa) /\
     s_fab sb = f_idx fb /\ get_node_id (f_noc fa) = Some (s_peer sb) /\ cats_of (f_noc fa) = Ok (s_cats sb) /\
     ((s_enc sa = s_dec sb /\ s_dec sa = s_enc sb) <-> msg_term m3' = msg_term m3)).
+Check (C01_resume_binding_partial : forall a b fra fab peer m1' m2' sa sb,
+  initiator_resume_sound a fra fab peer m2' sa ->
+  responder_resume_sound b m1' sb ->
+  mic1_from_initiator a fra fab peer m1' ->
+  exists q ra rb,
+    parse_sigma1 m1' = Ok q /\ find_by_peer (n_cache a) fab peer = Some ra /\ In rb (n_cache b) /\
+    g1_random q = TNonce (fr_rand fra) /\ r_secret rb = r_secret ra /\ r_rid rb = r_rid ra /\
+    s_fab sa = r_fab ra /\ s_peer sa = r_peer ra /\ s_cats sa = r_cats ra /\
+    s_fab sb = r_fab rb /\ s_peer sb = r_peer rb /\ s_cats sb = r_cats rb /\
+    s_enc sa = s_dec sb /\ s_dec sa = s_enc sb).
 Check (C01_known_class_inhabited :
   let p := handshake append_to_sigma3 w_a w_b w_fra w_frb 1 8738 in
   match outcome p, p_wire p with
